@@ -74,6 +74,24 @@ Theorem C04_crash_stream_sorted : forall now js k n,
     p_stream (replay (kill_image (crash_state js k n))) = map enc live /\
     StronglySorted id_lt live /\ Forall frame_ok live.
 Proof. exact crash_stream_is_sorted_frames. Qed.
+(* acknowledged = reflected, as a state of the store model that satisfies the invariant *)
+Theorem C04_acked_survives_kill : forall now js k n o,
+  (k < length js)%nat -> admissible now (map jop_to_op js) ->
+  nth_error js k = Some o ->
+  (length (program (fst (exec_ops (firstn k js))) o) <= n)%nat ->
+  InvZ (c_after now (map jop_to_op (firstn (S k) js))) (a_after now (map jop_to_op (firstn (S k) js))) /\
+  replay (kill_image (crash_state js k n)) = parts_of (c_after now (map jop_to_op (firstn (S k) js))).
+Proof. exact acked_kill_image_is_store. Qed.
+Theorem C04_acked_survives_power_loss : forall now js k n o img,
+  (k < length js)%nat -> admissible now (map jop_to_op js) ->
+  nth_error js k = Some o ->
+  (length (program (fst (exec_ops (firstn k js))) o) <= n)%nat ->
+  In img (power_images (crash_state js k n)) ->
+  InvZ (c_after now (map jop_to_op (firstn (S k) js))) (a_after now (map jop_to_op (firstn (S k) js))) /\
+  replay img = parts_of (c_after now (map jop_to_op (firstn (S k) js))).
+Proof. exact acked_power_image_is_store. Qed.
+Print Assumptions C04_acked_survives_kill.
+Print Assumptions C04_acked_survives_power_loss.
 Print Assumptions C04_crash_image_consistent.
 Print Assumptions C04_power_image_consistent.
 Print Assumptions C04_crash_stream_sorted.
